@@ -1900,7 +1900,7 @@ def gen_linkto_programs(r, n):
             # left alone: the address holds a dangling / stale / good link.  Linking the (intact) new target must
             # succeed and the key must read back its bytes (F18: the old link used to be trusted)
             ops.append(f"put tgt/gone{i} {hx(d)}")
-            ops.append(f"link_to {r.pick('sa')} c0 {hx(b'first-' + key[:8])} abs:tgt/gone{i}")
+            ops.append(f"link_to {r.pick('sa')} c0 {hx(b'first-' + key.decode('utf-8', 'ignore')[:6].encode())} abs:tgt/gone{i}")
             how = r.pick(["del", "rewrite", "rewrite", "keep"])
             if how == "del":
                 ops.append(f"del tgt/gone{i}")
@@ -1912,14 +1912,14 @@ def gen_linkto_programs(r, n):
             # relative NAME from another one, where it is a different file: each link means the file named at ITS time
             ops.append("mkdir w1")
             ops.append(f"put w1/{name} {hx(b'the file of that name in the first directory')}")
-            ops.append(f"link_to_cd {r.pick('sa')} c0 {hx(b'first-' + key[:8])} {name} w1")
+            ops.append(f"link_to_cd {r.pick('sa')} c0 {hx(b'first-' + key.decode('utf-8', 'ignore')[:6].encode())} {name} w1")
             ops.append(f"link_to_cd {fl} c0 {hx(key)} {name} tgt")
             tags["form"] = "rel"
         if mode in ("relink_same", "relink_self"):
             # the file is linked already (under another key): linking it again - by its own path, or through the
             # cache's symlink for it - must answer ok, leave the address leading to the file (not to itself) and
             # write nothing it does not have to
-            ops.append(f"link_to {r.pick('sa')} c0 {hx(b'first-' + key[:8])} abs:tgt/{name}")
+            ops.append(f"link_to {r.pick('sa')} c0 {hx(b'first-' + key.decode('utf-8', 'ignore')[:6].encode())} abs:tgt/{name}")
             if mode == "relink_self":
                 tgt = f"abs:c0/{L.content_rel(L.sri_of('sha256', d))}"
         if mode == "partial_cd":
